@@ -19,6 +19,7 @@ from xdsl.dialects import scf
 from xdsl.ir import Block, BlockArgument, Region, SSAValue
 
 from snaxc.dialects import accfg
+from snaxc.inference.helpers import has_accfg_effects
 
 State = dict[str, SSAValue]
 
@@ -44,12 +45,24 @@ def infer_state_of(state_var: SSAValue) -> State:
             yield_op = for_op.body.block.last_op
             assert isinstance(yield_op, scf.YieldOp)
             assert state_var in for_op.results  # this must be true because state_var.owner == for_op
-            return infer_state_of(yield_op.operands[for_op.results.index(state_var)])
+            idx = for_op.results.index(state_var)
+            # the loop may run zero times, so only values that hold on both paths are guaranteed
+            return state_intersection(infer_state_of(yield_op.operands[idx]), infer_state_of(for_op.iter_args[idx]))
         case Block() as block:
             match block.parent_op():
                 case scf.ForOp() as for_op:
                     assert isinstance(state_var, BlockArgument)  # must be a block argument for owner to be a block!
-                    return infer_state_of(for_op.iter_args[state_var.index - 1])
+                    state = infer_state_of(for_op.iter_args[state_var.index - 1])
+                    # the block argument also carries the state of the previous iteration: a value is only
+                    # guaranteed if nothing in the loop body can set the field to something else
+                    if has_accfg_effects(for_op):
+                        return {}
+                    assert isinstance(state_var.type, accfg.StateType)
+                    for setup in all_setup_ops_in_region(for_op.body, state_var.type.accelerator.data):
+                        for name, val in setup.items():
+                            if name in state and state[name] != val:
+                                del state[name]
+                    return state
                 case _:
                     return {}
         case _:
